@@ -9,7 +9,7 @@ import os
 
 from . import c18
 from .c18 import (Sandbox, Recorder, Ids, snapshot, fs_json, canon_fs, entry_json, make_cset, classify_exc, model_trace,
-                  env_json, diff_fs, gen_data, gen_owner, _f, _d, _s, _e)
+                  env_json, diff_fs, gen_data, gen_owner, gen_package, nodes_of, next_build, PKG_NAMES, _f, _d, _s, _e)
 
 PID = "C20"
 LEAN_MODULES = ["Pkgcore.Props.C20"]
@@ -21,6 +21,8 @@ OBLIGATIONS = [
     "Pkgcore.C20.base_dirs_table",
     "Pkgcore.C20.uninstall_exact",
     "Pkgcore.C20.replace_keeps_new",
+    "Pkgcore.C20.replace_keeps_aliased",
+    "Pkgcore.C20.removePlanOf_literal",
     "Pkgcore.C20.unmerged_bounded_iff",
 ]
 TRUSTED = c18.TRUSTED + [
@@ -29,12 +31,15 @@ TRUSTED = c18.TRUSTED + [
     "the table BaseSystemUnmergeProtection._preserve_sequence is regenerated from the imported class on every run",
 ]
 ASSUMPTIONS = [
-    "literal paths in the Lean model: roots where a listed location runs through a symlinked directory are judged on the real code only "
-    "(python oracle: nothing the new package installed is missing after a replace; protected directories still exist)",
+    "literal paths in the Lean file-system model: roots where a listed location runs through a symlinked directory are judged on the real "
+    "code (direct oracle: what the new package installed is identical before and after the unmerge; protected directories still exist) and, "
+    "for the cset algebra, by comparing the engine's remove cset with the model's removePlanOf under the live root's name resolution",
     "single device, no concurrent writers, no mount points (EBUSY) and no permission failures (the harness runs the code with enough privilege)",
     "the engines are exercised with the merge/unmerge/protection triggers only (the default plugin set additionally spawns ldconfig and install-info)",
 ]
-RULE = ("random recorded contents (old) and new contents over random live roots built around the base-system directories (usr, usr/lib, etc, "
+RULE = ("package images with sibling names that are string prefixes of each other, installed and then partially pruned (whole directories, "
+        "single files) before unmerge/uninstall; live roots where a directory has two names (link L -> D) with the old package recorded under "
+        "one and the next build coming under the other (files, links, sub-directories, empty directories); random recorded contents (old) and new contents over random live roots built around the base-system directories (usr, usr/lib, etc, "
         "var, bin, …): shared entries, entries deleted or retyped behind the package's back, non-empty directories, symlinks to files and "
         "directories at listed locations, symlinked ancestor directories; MergeEngine.uninstall and .replace with an offset, and "
         "unmerge_contents directly with/without its offset argument; non-trivial = at least one listed path is removed and at least one "
@@ -160,6 +165,58 @@ def gen_contents(rng, tree, other=None):
     return out
 
 
+def _under(entries, old_top, new_top):
+    n = len(old_top)
+    out = []
+    for e in entries:
+        e = dict(e)
+        if e["p"][:n] == list(old_top):
+            e["p"] = list(new_top) + e["p"][n:]
+        out.append(e)
+    return out
+
+
+def gen_alias_replace(rng):
+    """a live root with a directory that has two names (D and the link L -> D); the old package is installed in it and
+    recorded under one of the names, the new build of the package comes under one of the names (often the other one) —
+    files, symlinks, sub-directories and empty directories alike"""
+    base = rng.choice([["usr"], ["opt"], []])
+    dname, lname = rng.choice([("lib64", "lib"), ("app64", "app"), ("share", "doc"), ("man1p", "man1"), ("foo2", "foo")])
+    D, L = base + [dname], base + [lname]
+    tree = [{"p": base[:i], "k": "dir", "mode": 0o755, "uid": 0, "gid": 0, "mtime": 1000} for i in range(1, len(base) + 1)]
+    b1 = gen_package(rng, top=tuple(D), nmax=6)
+    tree += [n for n in nodes_of(b1) if n["p"] not in [t["p"] for t in tree]]
+    tree.append({"p": L, "k": "sym", "target": dname, "mode": 0o777, "uid": 0, "gid": 0, "mtime": 1000})
+    if rng.random() < 0.3:
+        tree.append({"p": D + ["foreign"], "k": "file", "data": "66", "mode": 0o644, "uid": 0, "gid": 0, "mtime": 5})
+    b2 = next_build(rng, b1, top=tuple(D))
+    old_top, new_top = rng.choice([(D, L), (L, D), (L, L), (D, D), (D, L), (L, D)])
+    return tree, _under(b1, D, old_top), _under(b2, D, new_top)
+
+
+def gen_pruned(rng):
+    """the old package fully installed, then partially pruned behind its back: whole directories (with what is in
+    them) and single files are gone, foreign files have appeared; sibling names share string prefixes"""
+    top = rng.choice([(), ("usr", "share"), ("opt",)])
+    b1 = gen_package(rng, top=top, nmax=8, twins=0.5)
+    nodes = nodes_of(b1)
+    gone = set()
+    for n in nodes:
+        p = tuple(n["p"])
+        if len(p) > len(top) and rng.random() < (0.3 if n["k"] == "dir" else 0.15):
+            gone.add(p)
+    tree = [n for n in nodes if not any(tuple(n["p"][:i]) in gone for i in range(1, len(n["p"]) + 1))]
+    dirs = [tuple(n["p"]) for n in tree if n["k"] == "dir"]
+    have = {tuple(n["p"]) for n in tree}
+    for _ in range(rng.randint(0, 2)):
+        if dirs:
+            p = rng.choice(dirs) + (rng.choice(PKG_NAMES),)
+            if p not in have:
+                have.add(p)
+                tree.append({"p": list(p), "k": "file", "data": "66", "mode": 0o644, "uid": 0, "gid": 0, "mtime": 5})
+    return tree, b1
+
+
 def symlinked(pre_snap, entries, dirs_too=False):
     """a location runs through a symlink (dirs_too: or a directory entry sits on one — the replace engine resolves
     those on the live file system when it decides what the new package owns)"""
@@ -187,7 +244,54 @@ def make_engine(mode, sb, *pkgs):
                                           observer=observer.repo_observer(observer.null_output()))
     for t in (triggers.merge, triggers.unmerge, triggers.BaseSystemUnmergeProtection):
         t().register(e)
+
+    class Spy(triggers.base):
+        """runs between the protection trigger (-100) and unmerge (50): what is about to be unmerged"""
+        required_csets = ("uninstall",)
+        _hooks = ("unmerge",)
+        _engine_types = triggers.UNINSTALLING_MODES
+        priority = 0
+        suppress_exceptions = False
+        seen = None
+
+        def trigger(self, engine, cset):
+            self.seen = sorted(x.location for x in cset)
+    e.spy = Spy()
+    e.spy.register(e)
     return e
+
+
+def rel_of(sb, path):
+    path = os.path.normpath(path)
+    if path == sb.root:
+        return []
+    if path.startswith(sb.root + "/"):
+        return path[len(sb.root) + 1:].split("/")
+    return ["!outside"] + path.split("/")
+
+
+def resolution_table(sb, entries):
+    """for every location: [path, path with its directory part resolved on the live root, fully resolved path]"""
+    out = []
+    for e in entries:
+        loc = sb.path(e["p"])
+        resp = os.path.join(os.path.realpath(os.path.dirname(loc)), os.path.basename(loc)) if e["p"] else loc
+        out.append([e["p"], rel_of(sb, resp), rel_of(sb, os.path.realpath(loc))])
+    return out
+
+
+def live_entries(sb, old):
+    """`livefs.intersect`: the live object at every recorded location that exists (kernel path resolution)"""
+    out = []
+    for e in old:
+        k = probe(sb, e)[0]
+        if k == "absent":
+            continue
+        d = {"p": e["p"], "mode": 0, "uid": 0, "gid": 0, "mtime": 0}
+        d.update({"dir": dict(k="dir"), "file": dict(k="reg", data="", key=None), "sym": dict(k="sym", target="x"),
+                  "other": dict(k="fifo")}[k])
+        out.append(d)
+    return out
 
 
 HOOKS_UN = ("sanity_check", "pre_unmerge", "unmerge", "post_unmerge", "final")
@@ -234,6 +338,8 @@ def run_real(kind, tree, old, new=None, offset_arg=True):
                     e = make_engine("uninstall", sb, FakePkg(make_cset(sb, old)))
                     for h in HOOKS_UN:
                         getattr(e, h)()
+                    if e.spy.seen is not None:
+                        plan = sorted(rel_of(sb, p) for p in e.spy.seen)
                 else:
                     e = make_engine("replace", sb, FakePkg(make_cset(sb, old)), FakePkg(make_cset(sb, new)))
                     for h in HOOKS_MERGE:
@@ -241,8 +347,12 @@ def run_real(kind, tree, old, new=None, offset_arg=True):
                     mid = snapshot(sb.root)
                     probes = [probe(sb, x) for x in new]
                     nmid = len(rec.ops)
+                    restab = resolution_table(sb, old + new)
+                    live = live_entries(sb, old)
                     for h in HOOKS_REST:
                         getattr(e, h)()
+                    if e.spy.seen is not None:
+                        plan = sorted(rel_of(sb, p) for p in e.spy.seen)
             except Exception as ex:  # noqa: BLE001
                 exc = ex
         post = snapshot(sb.root)
@@ -264,7 +374,8 @@ def run_real(kind, tree, old, new=None, offset_arg=True):
                         oracle.append("entry %r of the new package: %r right after the merge, %r after the unmerge of the old package"
                                       % (e_["p"], before[:2], after[:2]))
         return {"pre": pre, "mid": mid, "post": post, "ops": rec.ops, "exc": exc, "outside": rec.outside, "oracle": oracle,
-                "nmid": locals().get("nmid")}
+                "nmid": locals().get("nmid"), "plan": locals().get("plan"), "restab": locals().get("restab"),
+                "live": locals().get("live")}
     finally:
         os.umask(um)
         sb.cleanup()
@@ -311,7 +422,17 @@ def run(ctx):
     cases = list(CORPUS)
     if ctx.replay_cases:
         cases = [(c["kind"], c["tree"], c["old"], c.get("new")) for c in ctx.replay_cases if "kind" in c] + cases
-    for _ in range(ctx.n(1100, 16000)):
+    for _ in range(ctx.n(900, 14000)):
+        g = rng.random()
+        if g < 0.15:
+            tree, old, new = gen_alias_replace(rng)
+            cases.append(("replace", tree, old, new))
+            continue
+        if g < 0.35:
+            tree, old = gen_pruned(rng)
+            kind = rng.choice(["unmerge", "unmerge", "uninstall"])
+            cases.append((kind, tree, old, None))
+            continue
         tree = gen_root(rng)
         kind = rng.choice(["unmerge", "uninstall", "uninstall", "replace", "replace"])
         if rng.random() < 0.5:
@@ -355,6 +476,10 @@ def run(ctx):
         else:
             reqs.append({"cmd": "c20.replace", "env": env_json(), "fs": r["prej"], "old": oldj, "new": newj})
             reqs.append({"cmd": "c20.spec.replace", "mid": r["midj"] or r["prej"], "old": oldj, "new": newj, "final": r["postj"]})
+        r["planreq"] = None
+        if kind == "replace" and r["plan"] is not None and r["live"] is not None:
+            r["planreq"] = len(reqs)
+            reqs.append({"cmd": "c20.plan", "live": [entry_json(e) for e in r["live"]], "new": newj, "res": r["restab"]})
         results.append(r)
     replies = ctx.model(reqs)
     from pkgcore.merge import triggers
@@ -388,6 +513,23 @@ def run(ctx):
         if r["outside"]:
             ctx.violation(case, "touched paths outside the root: %r" % r["outside"][:3])
             continue
+        # ---- edge A for the cset algebra, aliased roots included: what the engine is about to unmerge = removePlanOf with
+        # the name resolution of the live root
+        if r["planreq"] is not None:
+            mp = replies[r["planreq"]]
+            ctx.count("remove_cset_compared")
+            if mp == "bad-op":
+                ctx.mismatch(case, "driver rejected the plan request")
+            elif sorted(mp) != r["plan"]:
+                extra = [p for p in r["plan"] if p not in mp]
+                newlocs_ = [e["p"] for e in new]
+                rt = {tuple(x[0]): x for x in r["restab"]}
+                hit = [p for p in extra if any(rt[tuple(p)][1] in (rt[tuple(q)][1], rt[tuple(q)][2]) for q in newlocs_ if tuple(p) in rt)]
+                if hit:
+                    ctx.violation(case, "the replace is about to unmerge %s, which the new package installs (the same object under "
+                                  "another name on the live root)" % hit[:3])
+                else:
+                    ctx.mismatch(case, "remove cset of the engine %s, of the model %s" % (r["plan"], sorted(mp)))
         # ---- edge C (literal cases: the Lean specification; symlinked ones: the direct oracle, plain link topologies only)
         if literal or not c18.simple_links(r["pre"], old + (new or [])) or (r["mid"] is not None and not c18.simple_links(r["mid"], old + (new or []))):
             if r["oracle"] and not literal:
